@@ -147,7 +147,9 @@ void mpmc_body(const mc::Params& P) {
 
 MC_HARNESS(mpmc) {
   long cap = P("cap", 2), round = P("round", 1);
-  if (cap == 2)
+  if (cap == 5 && !round)
+    mpmc_body<dispenso::MpmcRingBuffer<Elem, 5, false>>(P);
+  else if (cap == 2)
     mpmc_body<dispenso::MpmcRingBuffer<Elem, 2, true>>(P);
   else if (cap == 3 && !round)
     mpmc_body<dispenso::MpmcRingBuffer<Elem, 3, false>>(P);
@@ -274,8 +276,16 @@ void spsc_body(const mc::Params& P) {
 
 MC_HARNESS(spsc) {
   long cap = P("cap", 2), round = P("round", 1);
+  // exact (round=0) capacities give buffer sizes cap+1 that are NOT powers of two for cap 2, 4, 5
+  // (index arithmetic by modulo instead of mask) and a power of two for cap 1, 3
   if (cap == 1)
     spsc_body<dispenso::SPSCRingBuffer<Elem, 1, true>>(P);
+  else if (cap == 2 && !round)
+    spsc_body<dispenso::SPSCRingBuffer<Elem, 2, false>>(P);
+  else if (cap == 4 && !round)
+    spsc_body<dispenso::SPSCRingBuffer<Elem, 4, false>>(P);
+  else if (cap == 5 && !round)
+    spsc_body<dispenso::SPSCRingBuffer<Elem, 5, false>>(P);
   else if (cap == 2)
     spsc_body<dispenso::SPSCRingBuffer<Elem, 2, true>>(P);
   else if (cap == 3 && !round)
